@@ -129,6 +129,7 @@ theorem mstep_sub (s : MState) (st : MStep) : Cascade.Sub s.cache (mstep u s st)
     show Cascade.Sub s.cache (casc u s.cfg s.dyn (fuelOf u) s.cache (i, attr))
     rw [(casc_visit_eq u s.cfg s.dyn (fuelOf u)).1]
     exact (Cascade.casc_visit_sub _ _).1 _ _
+  | buffset i e ms => exact Cascade.Sub.refl _
   | reconfig cfg' => exact Cascade.Sub.refl _
 
 theorem sub_none {K K' : Cache} (h : Cascade.Sub K K') {n : Node} (hn : K n = none) : K' n = none := by
@@ -158,9 +159,6 @@ structure TornDown (i : Nat) (s s' : MState) : Prop where
   other : ∀ j, j ≠ i → s'.dyn.loaded j = s.dyn.loaded j ∧
     ∀ e, s'.dyn.on j e = s.dyn.on j e ∧ s'.dyn.tgts j e = s.dyn.tgts j e
   sub : Cascade.Sub s.cache s'.cache
-
-theorem filter_not_contains_self (ts : List Nat) : (ts.filter fun t => !ts.contains t) = [] :=
-  List.filter_eq_nil_iff.2 (fun t ht => by simp [ht])
 
 /-- The `EffectUnapplied` phase: registers other than `tgts i` are untouched, and `tgts i e` is emptied for
 every listed `e`. -/
